@@ -69,6 +69,7 @@ func seedFromEnv() int64 {
 type childOutcome struct {
 	batch    int
 	res      *h.Result
+	partial  *h.Result
 	died     bool
 	timedOut bool
 	exitCode int
@@ -191,6 +192,12 @@ func runChild(p *h.Prop, bin, tier string, seed int64, batch, nbatch int, workDi
 		}
 	}
 	if out.res == nil {
+		if b, err := os.ReadFile(resPath + ".partial"); err == nil {
+			var r h.Result
+			if json.Unmarshal(b, &r) == nil {
+				out.partial = &r
+			}
+		}
 		out.died = true
 		// the head of stderr holds the panic/fatal message, the tail the stacks
 		out.stderr = headFile(errPath, 6000)
@@ -320,6 +327,23 @@ func Run(o Options) int {
 			for attempt := 0; attempt < 12; attempt++ {
 				oc := runChild(p, bin, tier, seed, b, nb, workDir, onlyCase, startAt, attempt)
 				mu.Lock()
+				if oc.res == nil && oc.partial != nil {
+					// observations made before the process died (violations of the partial snapshot included)
+					r := oc.partial
+					m.Evaluations += r.Evaluations
+					for _, k := range r.Distinct {
+						m.Distinct[k] = struct{}{}
+					}
+					for k, v := range r.Counters {
+						m.Counters[k] += v
+					}
+					for k, v := range r.Notes {
+						m.Notes[k] = v
+					}
+					for _, v := range r.Violations {
+						addVio(v, b)
+					}
+				}
 				if oc.res != nil {
 					r := oc.res
 					m.Evaluations += r.Evaluations
@@ -361,6 +385,8 @@ func Run(o Options) int {
 				m.Counters["child_deaths"]++
 				if strings.Contains(oc.stderr, "VERIF-HANG") {
 					class = "hang (per-call watchdog)"
+					// the frame caught by the dump is arbitrary: key by the case family instead
+					frame = "case:" + caseFamily(oc.lastCase)
 				}
 				key := fmt.Sprintf("%s:died:%s@%s", p.ID, class, frame)
 				addVio(h.Violation{Key: key, Case: oc.lastCase,
@@ -516,4 +542,17 @@ func first[T any](s []T, n int) []T {
 		return s[:n]
 	}
 	return s
+}
+
+// caseFamily strips the per-case indices from a case id (A/target/3/17 -> A/target).
+func caseFamily(id string) string {
+	parts := strings.Split(id, "/")
+	var keep []string
+	for _, p := range parts {
+		if _, err := strconv.Atoi(p); err == nil {
+			continue
+		}
+		keep = append(keep, p)
+	}
+	return strings.Join(keep, "/")
 }
